@@ -53,6 +53,7 @@ pub fn replay_kind(kind: &str, j: &serde_json::Value) -> Option<Vec<String>> {
         "bind" => Some(c11::replay_bind(j)),
         "dig" => Some(c16::replay_dig(j)),
         "maporder" => Some(c15::replay_maporder(j)),
+        "digorder" => Some(c15::replay_digorder(j)),
         "static" => Some(c15::replay_static(j)),
         "interleave" => Some(c15::replay_interleave(j)),
         "none" => Some(j["observed"].as_array().map(|a| a.iter().map(|x| x.as_str().unwrap_or("").to_string()).collect()).unwrap_or_default()),
